@@ -59,7 +59,8 @@ M = [
  ("c13-swap-columns", ["C13"], "tools/rddetector/work_1E6.go", "p, q = randomness.CumulativeTest(bits, true)", "p, q = randomness.CumulativeTest(bits, false)"),
  ("c13-done-before-write", ["C13"], "tools/rddetector/main.go", "\tfor r := range in {\n\t\t_, _ = w.Write([]byte(r.Name))", "\tfor r := range in {\n\t\twg.Done()\n\t\t_, _ = w.Write([]byte(r.Name))"),
  ("c13-revert-f6", ["C13"], "tools/rddetector/work_2E4.go", "p, q = randomness.BinaryDerivativeProto(bits, 7)", "p, _ = randomness.BinaryDerivativeProto(bits, 7)"),
- ("c13-dat-skipped", ["C13"], "tools/rddetector/main.go", "\tgo filepath.Walk(inputPath, func(p string, _ os.FileInfo, _ error) error {\n\t\tif strings.HasSuffix(p, \".bin\") || strings.HasSuffix(p, \".dat\") {", "\tgo filepath.Walk(inputPath, func(p string, _ os.FileInfo, _ error) error {\n\t\tif strings.HasSuffix(p, \".bin\") {"),
+ ("c13-dat-skipped", ["C13"], "tools/rddetector/main.go", "\t\tif strings.HasSuffix(p, \".bin\") || strings.HasSuffix(p, \".dat\") {\n\t\t\tjobs <- p", "\t\tif strings.HasSuffix(p, \".bin\") {\n\t\t\tjobs <- p"),
+ ("c13-revert-f10", ["C13"], "tools/rddetector/main.go", "\t\tif fInfo == nil || fInfo.IsDir() {\n\t\t\t// 与 toBeTestFileNum 保持一致：目录不是样本（即使目录名以 .bin/.dat 结尾）\n\t\t\treturn nil\n\t\t}\n", ""),
  ("c15-registry-swap", ["C15"], "structs.go", "\t{\"二元推导检测\", BinaryDerivative},\n\t{\"自相关检测\", Autocorrelation},", "\t{\"自相关检测\", Autocorrelation},\n\t{\"二元推导检测\", BinaryDerivative},"),
  ("c15-poker-default", ["C15"], "poker.go", "p, q := PokerTestBytes(data, 8)", "p, q := PokerTestBytes(data, 4)"),
  ("c15-b2bit-order", ["C15"], "utils.go", "\tfor _, b := range buf {\n\t\tbits = append(bits, B2bit(b)...)\n\t}\n\treturn bits\n}\n\n// ReadGroupInASCIIFormat", "\tfor _, b := range buf[:len(buf)/2*2] {\n\t\tbits = append(bits, B2bit(b)...)\n\t}\n\treturn bits\n}\n\n// ReadGroupInASCIIFormat"),
